@@ -52,6 +52,19 @@ pub fn skip_reorder() -> bool {
     SKIP_REORDER.load(Ordering::SeqCst)
 }
 
+static SKIP_LIFT: AtomicBool = AtomicBool::new(false);
+
+/// When set, the planner's `GroupByKey` -> lifted-combine rewrite is skipped, so that the literal
+/// group-then-combine plan can be executed and compared with the lifted one.
+pub fn set_skip_lift(skip: bool) {
+    SKIP_LIFT.store(skip, Ordering::SeqCst);
+}
+
+/// Whether the lift pass is currently disabled.
+pub fn skip_lift() -> bool {
+    SKIP_LIFT.load(Ordering::SeqCst)
+}
+
 type ShardFn = Arc<dyn Fn(&'static str, usize, usize, usize) + Send + Sync>;
 
 static SHARD_CB: RwLock<Option<ShardFn>> = RwLock::new(None);
